@@ -38,7 +38,8 @@ def shard_args(tier, seed):
 
 
 def envs(snap, shard_args_list):
-    return [snap.env(conf_dir=snap.conf_copy("w%d" % i), hashseed=a["hashseed"]) for i, a in enumerate(shard_args_list)]
+    return [snap.env(conf_dir=snap.conf_copy("w%d" % i), hashseed=a.get("hashseed", (a.get("replay") or {}).get("hashseed") or 0))
+            for i, a in enumerate(shard_args_list)]
 
 
 def run(snap, tier, seed, t0, replay):
@@ -231,7 +232,8 @@ def worker(args):
         return json.dumps(res, sort_keys=True, default=str).replace(conf_dir, "<CONF>")
 
     env = dict(os.environ)
-    srv = Server(env, {"max_size": args.get("max_size") or 0, "ctx": {"list": sorted(lab.exists[lab.default_config])}})
+    max_size = args.get("max_size") or (args.get("replay") or {}).get("max_size") or 0
+    srv = Server(env, {"max_size": max_size, "ctx": {"list": sorted(lab.exists[lab.default_config])}})
     rng = random.Random(args.get("seed", 0))
     out_fresh = {}
     try:
@@ -239,7 +241,20 @@ def worker(args):
             c = args["replay"]
             rec.ev()
             seq = c.get("history", [])
-            judge_history(rec, srv, byname, seq, restore, norm, lab, {}, c)
+            if c.get("group"):
+                # equivalent spellings: ask each spelling in its own fresh child
+                vals = {}
+                for n in c.get("calls", []):
+                    if n in byname:
+                        vals[n] = norm(srv.run([byname[n]["spec"]])["results"][0])
+                if len(set(vals.values())) > 1:
+                    rec.violation("equivalent_spellings_differ", dict(c), json.dumps({k: v[:200] for k, v in vals.items()})[:900])
+            elif seq:
+                judge_history(rec, srv, byname, seq, restore, norm, lab, {}, {k: v for k, v in c.items() if k in ("hashseed", "max_size")},
+                              reduced=bool(max_size))
+            elif c.get("call") in byname:
+                # a call whose fresh result differs between hash seeds: show it under this replay's hash seed
+                rec.sample({"call": c["call"], "result": norm(srv.run([byname[c["call"]]["spec"]])["results"][0])[:400]})
             return rec.result()
         # ---- fresh results on the base state (one child per call)
         fresh = {}
